@@ -178,7 +178,7 @@ func (s *Solver) Check(pc []*Term, extra *Term, wantModel bool) (Verdict, map[st
 		s.ctx.Emit(extra, s.defined, &sb)
 		fmt.Fprintf(&sb, "(push 1)\n(assert %s)\n", extra.ref())
 	}
-	sb.WriteString("(check-sat)\n")
+	sb.WriteString(s.ctx.checkCmd())
 	s.send(sb.String())
 	l, ok := s.readLine()
 	v := Unknown
